@@ -104,6 +104,20 @@ def check_gpsum(ctx, case):
     else:
       outs.append({"n": s.num_sampled, "best": int(s.best_index)})
     got = outs[-1]
+    # whatever was read or appended before: an accessor returns the weighted combination of the CURRENT component data
+    if "vals" in got and len(got["vals"]) == s.num_sampled:
+      fresh = sum(w * g.points_sampled_value for w, g in zip(case["weights"], gps))
+      if not numpy.allclose(got["vals"], fresh, rtol=1e-12, atol=1e-13):
+        ctx.violation("C15 GaussianProcessSum.points_sampled_value is not the weighted sum of the components' current values "
+                      "(a lie does not carry each model's worst value / stale memo)",
+                      {"case": case, "step": i, "got": got["vals"], "want": fresh.tolist()}, signature="gpsum-stale-cache")
+        return
+    if "noise" in got and len(got["noise"]) == s.num_sampled:
+      fresh = sum(w ** 2 * g.points_sampled_noise_variance for w, g in zip(case["weights"], gps))
+      if not numpy.allclose(got["noise"], fresh, rtol=1e-12, atol=0):
+        ctx.violation("C15 GaussianProcessSum.points_sampled_noise_variance is not the squared-weight sum of the components' current noise",
+                      {"case": case, "step": i, "got": got["noise"], "want": fresh.tolist()}, signature="gpsum-stale-cache")
+        return
     for key in ("vals", "noise"):
       if key in got and len(got[key]) != s.num_sampled:
         ctx.violation(f"C15 GaussianProcessSum accessor returned {len(got[key])} entries but num_sampled is {s.num_sampled} (stale memo)",
